@@ -14,5 +14,16 @@ BulksSorted == {b \in SortedLists(MaxBulk) : SortedBulk(b)}
 \* spec -> code: in simulation mode every behaviour that reaches MaxOps updates is printed as JSON; the driver feeds
 \* these histories to harness/rec_dynamic (--hist), whose recording goes back through DynTrace.tla
 EmitHist == (ops = MaxOps) => PrintT(<<"HIST", ToJson(hist)>>)
-\* BFS: every history of exactly MaxOps updates (no VIEW: histories are distinct states)
+\* Reachability witnesses that also emit the (shortest) history reaching them: TLC must VIOLATE each of these; the printed
+\* history is replayed on the real container (coverage driven by the model)
+Emit(cond) == cond => ~PrintT(<<"HIST", ToJson(hist)>>)
+EW_ThreeHolders == Emit(\E k \in Keys : Cardinality(Holders(k)) >= 3)
+EW_FullLevel == Emit(\E l \in Lvls : l > MinLevel /\ Len(levels[l]) = MaxSize(l))
+EW_TombstoneDeep == Emit(\E l \in Lvls : l > MinLevel + 1 /\ \E i \in 1..Len(levels[l]) : levels[l][i].d)
+EW_IndexReset == Emit(\E l \in Lvls : l >= MinIndexLevel /\ l < used /\ levels[l] = <<>> /\ used > l + 1)
+EW_FourLevels == Emit(used > MinLevel + 3)
+\* the last used level was emptied by a merge into itself (every entry cancelled by a tombstone)
+EW_LastLevelEmptied == Emit(used > MinLevel + 1 /\ levels[used - 1] = <<>> /\ ops > 0 /\ hist[Len(hist)][1] = "Del")
+\* a key present in some level disappears from every level in one step
+EW_PermanentDelete == [][(\E k \in Keys : Holders(k) # {} /\ Holders(k)' = {}) => ~PrintT(<<"HIST", ToJson(hist')>>)]_vars
 =============================================================================
